@@ -687,7 +687,7 @@ pub enum RecipeTime {
 
 /// Returns minutes
 fn parse_time(s: &str, converter: &Converter) -> Result<u32, ParseTimeError> {
-    if s.is_empty() {
+    if s.trim().is_empty() {
         return Err(ParseTimeError::Empty);
     }
 
@@ -699,13 +699,23 @@ fn parse_time(s: &str, converter: &Converter) -> Result<u32, ParseTimeError> {
     let r = parse_time_with_units(s, converter);
     // if any error, try to fall back to a full float parse
     if r.is_err() {
-        let minutes = s.parse::<f64>().map(|m| m.round() as u32);
-        if let Ok(minutes) = minutes {
+        if let Some(minutes) = s.parse::<f64>().ok().and_then(minutes_to_u32) {
             return Ok(minutes);
         }
     }
     // otherwise return the result whatever it was
     r
+}
+
+/// Rounds a number of minutes to a `u32`, declining what a `u32` can't hold
+/// (negative, too big, infinite or NaN) instead of saturating.
+fn minutes_to_u32(minutes: f64) -> Option<u32> {
+    let rounded = minutes.round();
+    if minutes >= 0.0 && rounded <= u32::MAX as f64 {
+        Some(rounded as u32)
+    } else {
+        None
+    }
 }
 
 #[derive(Debug, thiserror::Error)]
@@ -720,6 +730,8 @@ pub(crate) enum ParseTimeError {
     ParseFloatError(#[from] ParseFloatError),
     #[error("An empty value is not valid")]
     Empty,
+    #[error("The time is out of range")]
+    OutOfRange,
 }
 
 fn parse_common_time_format(s: &str) -> Option<u32> {
@@ -737,13 +749,13 @@ fn parse_common_time_format(s: &str) -> Option<u32> {
     loop {
         match it.next() {
             Some(s) if s.ends_with(H_SEP) && !hours_found => {
-                let hours = &s[..s.len() - H_SEP.len_utf8()].parse::<u32>().ok()?;
-                total_minutes += hours * 60;
+                let hours = s[..s.len() - H_SEP.len_utf8()].parse::<u32>().ok()?;
+                total_minutes = total_minutes.checked_add(hours.checked_mul(60)?)?;
                 hours_found = true;
             }
             Some(s) if s.ends_with(M_SEP) => {
-                let minutes = &s[..s.len() - M_SEP.len_utf8()].parse::<u32>().ok()?;
-                total_minutes += minutes;
+                let minutes = s[..s.len() - M_SEP.len_utf8()].parse::<u32>().ok()?;
+                total_minutes = total_minutes.checked_add(minutes)?;
                 break;
             }
             None => break,
@@ -781,7 +793,7 @@ fn parse_time_with_units(s: &str, converter: &Converter) -> Result<u32, ParseTim
         let number = number.parse::<f64>()?;
         total += to_minutes(number, unit)?;
     }
-    Ok(total.round() as u32)
+    minutes_to_u32(total).ok_or(ParseTimeError::OutOfRange)
 }
 
 fn dynamic_time_units(
@@ -823,13 +835,17 @@ fn hard_coded_time_units(value: f64, unit: &str) -> Result<f64, ParseTimeError> 
 
 impl RecipeTime {
     /// Get the total time prep + cook (minutes)
+    ///
+    /// Saturates at [`u32::MAX`].
     pub fn total(self) -> u32 {
         match self {
             RecipeTime::Total(t) => t,
             RecipeTime::Composed {
                 prep_time,
                 cook_time,
-            } => prep_time.iter().chain(cook_time.iter()).sum(),
+            } => prep_time
+                .unwrap_or(0)
+                .saturating_add(cook_time.unwrap_or(0)),
         }
     }
 }
